@@ -42,7 +42,7 @@ def _fn_f(x):
 C_CARRIERS = {
     'list': list, 'tuple': tuple, 'USeq': U.USeq, 'UMSeq': U.UMSeq, 'GL': U.GL, 'deque': collections.deque,
     'set': set, 'frozenset': frozenset, 'USet': U.USet, 'UMSet': U.UMSet, 'UColl': U.UColl, 'URev': U.URev,
-    'UCont': U.UCont, 'UIter': U.UIter, 'gen': _gen, 'iter': iter, 'Counter': collections.Counter,
+    'UCont': U.UCont, 'UIter': U.UIter, 'GOut': U.GOut, 'gen': _gen, 'iter': iter, 'Counter': collections.Counter,
 }
 C_SRC = {'deque': 'collections.deque', 'gen': '(lambda it: (i for i in it))', 'Counter': 'collections.Counter'}
 M_CARRIERS = {
@@ -51,7 +51,7 @@ M_CARRIERS = {
     'OrderedDict': collections.OrderedDict,
     'ChainMap': lambda pairs: collections.ChainMap(dict(pairs)),
     'Counter': lambda pairs: collections.Counter(dict(pairs)),
-    'UMap': U.UMap, 'UMMap': U.UMMap,
+    'UMap': U.UMap, 'UMMap': U.UMMap, 'GReg': U.GReg,
     'mappingproxy': lambda pairs: types.MappingProxyType(dict(pairs)),
 }
 M_SRC = {
@@ -298,6 +298,8 @@ ATOM_WIT = {
     'TupUU': [('c', 'tuple', (V('1'), V("'a'")))],
     'InitI': [V('1'), V('True')],
     'FinI': [V('1'), V('0')],
+    'GRegI': [('m', 'GReg', ()), ('m', 'GReg', ((V('1'), ('c', 'GL', (V("'a'"),))),)), ('m', 'GReg', ((V('0'), ('c', 'GL', ())), (V('1'), ('c', 'GL', (V("'a'"), V("'b'")))))),],
+    'GOutI': [('c', 'GOut', ()), ('c', 'GOut', (('c', 'GL', (V("'a'"),)),)), ('c', 'GOut', (('c', 'GL', ()), ('c', 'GL', (V("'a'"), V("'b'"))))),],
     'list_': [('c', 'list', ()), ('c', 'list', (V('1'), V("'a'")))],
     'dict_': [('m', 'dict', ()), ('m', 'dict', ((V('1'), V("'a'")),))],
     'tuple_': [('c', 'tuple', ()), ('c', 'tuple', (V('1'), V("'a'")))],
@@ -316,7 +318,8 @@ POOL = [V('1'), V('True'), V("'a'"), V('1.5'), V('None'), V("b'x'"), V('1j'), V(
         ('c', 'GL', (V('1'),)), ('c', 'GL', (V("'a'"),)), ('c', 'URev', (V('1'),)), ('c', 'UCont', (V('1'),)),
         ('m', 'defaultdict', ((V('1'), V('1')),)), ('m', 'OrderedDict', ((V('1'), V('1')),)),
         ('m', 'ChainMap', ((V('1'), V('1')),)),
-        ('raw', 'pattern-str'), ('raw', 'pattern-bytes'), ('raw', 'match-str'), ('raw', 'NT-good'), ('raw', 'NT-bad'), ('raw', 'DC'), ('raw', 'UCM'),
+        ('m', 'GReg', ((V('1'), ('c', 'GL', (V('1'),))),)), ('m', 'GReg', ((V("'a'"), ('c', 'GL', (V("'a'"),))),)), ('c', 'GOut', (('c', 'GL', (V('1'),)),)),
+        ('c', 'GOut', (V('1'),)), ('raw', 'pattern-str'), ('raw', 'pattern-bytes'), ('raw', 'match-str'), ('raw', 'NT-good'), ('raw', 'NT-bad'), ('raw', 'DC'), ('raw', 'UCM'),
         ('raw', 'path'), ('raw', 'builtin-len'), ('c', 'list', (('c', 'list', (V("'a'"),)),)), ('c', 'tuple', (V("'a'"), V('1'))),
         ('m', 'dict', ((V("'a'"), V('1')), (V("'b'"), V("'a'"))))]
 
